@@ -44,6 +44,24 @@ theorem C22_translate_preserves (m : Module) (clk rst : Nat) (cfg : Cfg) (d : VD
   rw [hm] at this
   exact this
 
+/-- **translate is injective on its domain**: two SystemVerilog expressions that translate to the same
+Veryl expression are the same expression — the translator never merges distinct inputs (a lossy
+rewrite of an operator or operand into another that is also in the domain would break this). -/
+theorem C22_expr_injective (r r' : Raw) (v : VRaw) (h : trRaw r = some v) (h' : trRaw r' = some v) : r = r' := by
+  rw [← emit_trRaw r v h, ← emit_trRaw r' v h']
+
+/-- … statements -/
+theorem C22_stmt_injective (nb : Bool) (s s' : Stmt) (v : VStmt) (h : trStmt nb s = some v)
+    (h' : trStmt nb s' = some v) : s = s' := by
+  rw [← emit_trStmt nb s v h, ← emit_trStmt nb s' v h']
+
+/-- … and whole combinational modules: the same translated design (under the same clock/reset naming)
+comes from one module only. -/
+theorem C22_module_injective (m m' : Module) (clk rst : Nat) (cfg : Cfg) (d : VDesign)
+    (hc : combOnly m.items = true) (hc' : combOnly m'.items = true)
+    (h : translateModel m clk rst = some d) (h' : translateModel m' clk rst = some d) : m = m' := by
+  rw [← C22_emit_translate m clk rst cfg d hc h, ← C22_emit_translate m' clk rst cfg d hc' h']
+
 /-- a module in the domain: `assign o = a & ~b; always_comb if (a[0]) w = a; else w = b;` -/
 def exampleModule : Module :=
   { decls := [⟨1, false⟩, ⟨1, false⟩, ⟨8, false⟩, ⟨8, false⟩, ⟨8, false⟩, ⟨8, false⟩], inputs := [2, 3], outputs := [4],
